@@ -1,4 +1,5 @@
 import UtilModel.Core.LTSHash
+import UtilModel.Core.LTSComplete
 import UtilModel.Seq.Props
 /-!
 # Seq — end-to-end transfer
@@ -33,5 +34,87 @@ theorem C20_accepted_unique (cap fuel : Nat) (h : List Seq.Unique.Obs)
     (ha : Seq.Unique.model.accepts cap fuel h = true) : Seq.monC20Unique.accepts h = true :=
   accepted_satisfies Seq.Unique.model (fun h => Seq.monC20Unique.accepts h = true)
     Seq.Unique.C20_obs_unique cap fuel h ha
+
+end UtilModel
+
+/-! ## completeness of the candidate lists — a REJECT is about the model -/
+namespace UtilModel
+
+/-- a `detModel` has no internal events and `evsOf s o = [o]` is the only event showing `o` -/
+theorem Seq.detModel_complete {σ ο : Type} (init : σ) (step : σ → ο → Option σ) :
+    (Seq.detModel init step).Complete :=
+  ⟨fun _ _ _ _ ho => by simp [Seq.detModel] at ho,
+   fun _ e _ o _ ho => by
+     simp only [Seq.detModel, Option.some.injEq] at ho
+     subst ho; simp [Seq.detModel]⟩
+
+theorem complete_ioseek : Seq.IOSeek.model.Complete := Seq.detModel_complete _ _
+theorem complete_iosizer : Seq.IOSizer.model.Complete := Seq.detModel_complete _ _
+theorem complete_iocloser : Seq.IOCloser.model.Complete := Seq.detModel_complete _ _
+theorem complete_unique : Seq.Unique.model.Complete := Seq.detModel_complete _ _
+
+/-- ioproxy: every event is observable; an observable names the stream, `evsOf` lists the pump(s)
+that can have produced it (`read`/`write`: the pump whose source/destination it is; `close`, `cb`:
+both pumps) -/
+theorem complete_ioproxy : Seq.IOProxy.model.Complete := by
+  constructor
+  · intro s e s' _ ho
+    cases e <;> simp [Seq.IOProxy.model, Seq.IOProxy.Ev.obs] at ho
+  · intro s e s' o _ ho
+    cases e with
+    | new cb => simp only [Seq.IOProxy.model, Seq.IOProxy.Ev.obs, Option.some.injEq] at ho; subst ho; simp [Seq.IOProxy.model]
+    | read p err d =>
+      simp only [Seq.IOProxy.model, Seq.IOProxy.Ev.obs, Option.some.injEq] at ho; subst ho
+      cases p <;> simp [Seq.IOProxy.model, Seq.IOProxy.src]
+    | write p n err d =>
+      simp only [Seq.IOProxy.model, Seq.IOProxy.Ev.obs, Option.some.injEq] at ho; subst ho
+      cases p <;> simp [Seq.IOProxy.model, Seq.IOProxy.dst]
+    | close p st =>
+      simp only [Seq.IOProxy.model, Seq.IOProxy.Ev.obs, Option.some.injEq] at ho; subst ho
+      cases p <;> simp [Seq.IOProxy.model]
+    | cbk p =>
+      simp only [Seq.IOProxy.model, Seq.IOProxy.Ev.obs, Option.some.injEq] at ho; subst ho
+      cases p <;> simp [Seq.IOProxy.model]
+    | quiesce => simp only [Seq.IOProxy.model, Seq.IOProxy.Ev.obs, Option.some.injEq] at ho; subst ho; simp [Seq.IOProxy.model]
+
+/-- **A REJECT of the seq-ioseek correspondence is about the model** (list-indexed checker). -/
+theorem reject_sound_ioseek (cap fuel : Nat) (h : List Seq.IOSeek.Obs) (i : Nat)
+    (hfail : (Seq.IOSeek.model.accRun cap fuel [Seq.IOSeek.model.init] h 0 false 1).failedAt = some i)
+    (htr : (Seq.IOSeek.model.accRun cap fuel [Seq.IOSeek.model.init] h 0 false 1).truncated = false) :
+    ¬ ∃ es s, Seq.IOSeek.model.run Seq.IOSeek.model.init es = some s ∧
+      es.filterMap Seq.IOSeek.model.obs = h :=
+  reject_sound Seq.IOSeek.model complete_ioseek cap fuel h i hfail htr
+
+/-- **A REJECT of the seq-iosizer correspondence is about the model** (list-indexed checker). -/
+theorem reject_sound_iosizer (cap fuel : Nat) (h : List Seq.IOSizer.Obs) (i : Nat)
+    (hfail : (Seq.IOSizer.model.accRun cap fuel [Seq.IOSizer.model.init] h 0 false 1).failedAt = some i)
+    (htr : (Seq.IOSizer.model.accRun cap fuel [Seq.IOSizer.model.init] h 0 false 1).truncated = false) :
+    ¬ ∃ es s, Seq.IOSizer.model.run Seq.IOSizer.model.init es = some s ∧
+      es.filterMap Seq.IOSizer.model.obs = h :=
+  reject_sound Seq.IOSizer.model complete_iosizer cap fuel h i hfail htr
+
+/-- **A REJECT of the seq-iocloser correspondence is about the model** (list-indexed checker). -/
+theorem reject_sound_iocloser (cap fuel : Nat) (h : List Seq.IOCloser.Obs) (i : Nat)
+    (hfail : (Seq.IOCloser.model.accRun cap fuel [Seq.IOCloser.model.init] h 0 false 1).failedAt = some i)
+    (htr : (Seq.IOCloser.model.accRun cap fuel [Seq.IOCloser.model.init] h 0 false 1).truncated = false) :
+    ¬ ∃ es s, Seq.IOCloser.model.run Seq.IOCloser.model.init es = some s ∧
+      es.filterMap Seq.IOCloser.model.obs = h :=
+  reject_sound Seq.IOCloser.model complete_iocloser cap fuel h i hfail htr
+
+/-- **A REJECT of the seq-ioproxy correspondence is about the model** (list-indexed checker). -/
+theorem reject_sound_ioproxy (cap fuel : Nat) (h : List Seq.IOProxy.Obs) (i : Nat)
+    (hfail : (Seq.IOProxy.model.accRun cap fuel [Seq.IOProxy.model.init] h 0 false 1).failedAt = some i)
+    (htr : (Seq.IOProxy.model.accRun cap fuel [Seq.IOProxy.model.init] h 0 false 1).truncated = false) :
+    ¬ ∃ es s, Seq.IOProxy.model.run Seq.IOProxy.model.init es = some s ∧
+      es.filterMap Seq.IOProxy.model.obs = h :=
+  reject_sound Seq.IOProxy.model complete_ioproxy cap fuel h i hfail htr
+
+/-- **A REJECT of the seq-unique correspondence is about the model** (list-indexed checker). -/
+theorem reject_sound_unique (cap fuel : Nat) (h : List Seq.Unique.Obs) (i : Nat)
+    (hfail : (Seq.Unique.model.accRun cap fuel [Seq.Unique.model.init] h 0 false 1).failedAt = some i)
+    (htr : (Seq.Unique.model.accRun cap fuel [Seq.Unique.model.init] h 0 false 1).truncated = false) :
+    ¬ ∃ es s, Seq.Unique.model.run Seq.Unique.model.init es = some s ∧
+      es.filterMap Seq.Unique.model.obs = h :=
+  reject_sound Seq.Unique.model complete_unique cap fuel h i hfail htr
 
 end UtilModel
